@@ -186,7 +186,14 @@ func (s skipCond) match(g Guard) bool {
 		}
 		return false
 	}
-	if g.Pos != s.pos {
+	condStr, pos := g.Cond.String(), g.Pos
+	if s.callee == "binop" && g.Cond.Op == "binop" && pos != s.pos && (g.Cond.Name == "==" || g.Cond.Name == "!=") {
+		// `!(a == b)` is `a != b`: an equality test is matched in either polarity
+		other := map[string]string{"==": "!=", "!=": "=="}[g.Cond.Name]
+		condStr = "(" + g.Cond.Args[0].String() + " " + other + " " + g.Cond.Args[1].String() + ")"
+		pos = !pos
+	}
+	if pos != s.pos {
 		return false
 	}
 	if s.callee == "binop" {
@@ -198,7 +205,7 @@ func (s skipCond) match(g Guard) bool {
 	}
 	// "a&&b": both substrings must occur
 	for _, part := range strings.Split(s.substr, "&&") {
-		if part != "" && !strings.Contains(g.Cond.String(), part) {
+		if part != "" && !strings.Contains(condStr, part) {
 			return false
 		}
 	}
